@@ -140,14 +140,15 @@ def gen_case10(rng, name, idx):
         c.scripts[5] = gen_script(rng, start, end, density=rng.choice([1, 3, 6]))
         main.append(S("b", "src", uid=5, mode=0))
     # the mapped function: entry pass nodes identify the instance, then a generated body
-    g = ProgGen(rng, c, uid, allow_sub=False, allow_fb=rng.random() < 0.2, allow_sched=False)
+    subs = rng.random() < 0.3 and kind != "fnk2"      # (two-dictionary functions keep their element readers in one flat body)
+    g = ProgGen(rng, c, uid, allow_sub=subs, allow_fb=rng.random() < 0.2, allow_sched=False, max_depth=2)
     params = {"fn1": ["p0"], "fn2": ["p0", "p1"], "fnk1": ["p0", "p1"], "fnk2": ["p0", "p1", "p2"]}[kind]
     elem = "p1" if kind == "fnk1" else "p0"         # fnk2: the entry node reads the key itself
     entry = [S("e_", "pass", elem, uid=90)]
     body_params = ["e_"] + ([p for p in params if p != elem])
     if kind == "fnk2":
         body_params = ["p1", "p2", "e_"]
-    body = g.body("f", body_params, rng.choice([1, 2, 4, 6]), 5, True)
+    body = g.body("f", body_params, rng.choice([1, 2, 4, 6]) + (2 if subs else 0), 1 if subs else 5, True)
     if kind == "fnk2":
         # whether the END of one element stream (the key left one dictionary only) wakes consumers that accept an unset input
         # is not defined by the property and differs between direct and list-shaped inputs: such consumers never read the
@@ -246,7 +247,7 @@ def union_epochs(wl1, wl2, end):
     return out
 
 
-def standalone(case, epoch, bticks, emulate=False, inv_notifies=True):
+def standalone(case, epoch, bticks, emulate=False, inv_notifies=True, nested_unmodified=False):
     """Model of the mapped function run alone on one key epoch."""
     t0 = epoch["start"]
     t1 = epoch["stop"] if epoch["stop"] is not None else case.end
@@ -276,12 +277,23 @@ def standalone(case, epoch, bticks, emulate=False, inv_notifies=True):
         c.scripts[1003] = [(t0, epoch["key"])]
         main.append(S("ky", "src", uid=1003, mode=1))
         args = ["ky", "el"]
-    c.graphs["sub0"] = copy.deepcopy(case.graphs["fn0"])
-    main.append(S("o", "nested", *args, sid=0))
+    for gname, sts in case.graphs.items():
+        if gname.startswith("sub"):
+            c.graphs[gname] = copy.deepcopy(sts)
+    c.graphs["sub900"] = copy.deepcopy(case.graphs["fn0"])
+    main.append(S("o", "nested", *args, sid=900))
     main.append(S("", "rec", "o", uid=1004))
     c.graphs["main"] = main
     flat = M.flatten(c)
-    return M.simulate(flat, emulate_sampled_start=emulate, inv_notifies=inv_notifies)
+    si = None
+    if nested_unmodified:
+        # known finding F18: values present when the instance starts (ticked earlier in that cycle, or - the broadcast argument -
+        # only sampled) are not ticks for nodes behind a nested boundary inside the instance
+        before = [t for t, v in bticks if t < t0]
+        si = {1001: None, 1003: None, 1002: (before[-1] if (kind == "fn2" and before and not any(t == t0 for t, v in bticks)) else None)}
+    mr = M.simulate(flat, emulate_sampled_start=emulate, inv_notifies=inv_notifies, sampled_inputs=si)
+    mr.used_nested_unmodified = mr.stats.get("nested_sampled_unmodified", 0) > 0
+    return mr
 
 
 def check(case, tr):
@@ -298,6 +310,7 @@ def check(case, tr):
         return res
     V = []
     known = []
+    known3 = []
     wl = dict(write_log(run).get(1, []))
     eps = epochs_from_writes(wl, case.end)
     if case.meta["kind"] == "fnk2":
@@ -318,7 +331,10 @@ def check(case, tr):
         if ue.uid == 5:
             bticks.append((ue.t, ue.out))
         if gparent.get(ue.gid, -1) >= 0:
-            d = inst_runs.setdefault(ue.gid, {})
+            top = ue.gid
+            while gparent.get(top, 0) > 0:          # nested graphs inside the mapped function belong to the key's instance
+                top = gparent[top]
+            d = inst_runs.setdefault(top, {})
             if (ue.uid, ue.t) in d:
                 V.append(f"instance graph {ue.gid}: uid {ue.uid} ran twice at t={ue.t}")
             d[(ue.uid, ue.t)] = (ue.out, [(x[0], x[3]) for x in ue.ins])
@@ -358,11 +374,17 @@ def check(case, tr):
                 if got == exp1:
                     mr, exp = mr1, exp1
             if got != exp:
-                mr2 = standalone(case, ep, bticks, emulate=True)
-                exp2 = {(u, t): (o, [(x[0], x[3]) for x in ins]) for (u, t), (o, ins) in mr2.runs.items() if u not in (1001, 1002, 1003, 1004)}
-                if mr2.sampled and got == exp2:
-                    known.append(f"key {key} epoch starting t={ep['start']}: all-Unchecked node(s) {mr2.sampled[:3]} ran at instance start on an unset boundary source")
-                    mr, exp = mr2, exp2
+                for emu, nun in ((True, False), (False, True), (True, True)):
+                    mr2 = standalone(case, ep, bticks, emulate=emu, nested_unmodified=nun)
+                    exp2 = {(u, t): (o, [(x[0], x[3]) for x in ins]) for (u, t), (o, ins) in mr2.runs.items() if u not in (1001, 1002, 1003, 1004)}
+                    if got == exp2 and (mr2.sampled or mr2.used_nested_unmodified):
+                        if mr2.sampled:
+                            known.append(f"key {key} epoch starting t={ep['start']}: all-Unchecked node(s) {mr2.sampled[:3]} ran at instance start on an unset boundary source")
+                        if mr2.used_nested_unmodified:
+                            known3.append(f"key {key} epoch starting t={ep['start']}: nodes behind a nested boundary inside the new instance do not "
+                                          f"see the values present at its start as ticks (inlined in the instance they do)")
+                        mr, exp = mr2, exp2
+                        break
             if got != exp:
                 missing = sorted(set(exp) - set(got))[:4]
                 extra = sorted(set(got) - set(exp))[:4]
@@ -409,6 +431,8 @@ def check(case, tr):
             V.append(f"map output at t={t}: modified keys {sorted(d['modk'])} != keys whose instance ticked {sorted(exp_mod)}")
     for msg in V[:6]:
         res.violations.append(Violation(msg))
+    if known3:
+        res.violations.append(Violation(known3[0], "nested-in-dynamic-child-sampled-input-not-modified"))
     if known:
         res.violations.append(Violation(known[0], "nested-start-samples-unset-source"))
     res.counters = {"epochs_checked": n_epochs, "readd_epochs": readds, "instance_runs_compared": runs_cmp,
